@@ -51,6 +51,7 @@ var (
 	flagVerbose  = flag.Bool("v", false, "verbose")
 	flagSMTLog   = flag.String("smtlog", "", "write solver dialogue of the (single) harness here")
 	flagMaxPaths = flag.Int("maxpaths", 0, "override maxpaths")
+	flagWall     = flag.Int("wall", 0, "override per-harness wall budget (s)")
 )
 
 func main() {
@@ -181,6 +182,9 @@ func run() int {
 		d.Cfg.Solver = *flagSolver
 		if *flagMaxPaths > 0 {
 			d.Cfg.MaxPaths = *flagMaxPaths
+		}
+		if *flagWall > 0 {
+			d.Cfg.WallS = *flagWall
 		}
 		if replay != nil {
 			d.Cfg.Pinned = map[string]*big.Int{}
@@ -552,6 +556,8 @@ func buildDecl(block []string, fn, rel, path string) *harnessDecl {
 					d.Cfg.TimeoutS = n
 				case "steps":
 					d.Cfg.MaxSteps = n
+				case "wall":
+					d.Cfg.WallS = n
 				case "havocmax":
 					d.Cfg.HavocMax = n
 				case "tier":
